@@ -75,12 +75,21 @@ def _run_shard(modname: str, idx: int, tier: str, shard: Dict[str, Any], workdir
     return res
 
 
-def replay_in_fresh_process(modname: str, idx: int, tier: str, args: Any) -> Dict[str, Any]:
+def replay_in_fresh_process(modname: str, idx: int, tier: str, args: Any, params: Any = None) -> Dict[str, Any]:
     with tempfile.NamedTemporaryFile("w", suffix=".json", delete=False) as f:
         json.dump(args, f)
         path = f.name
+    env = _env()
+    shards_path = None
+    if params is not None and idx >= 0:
+        # a replay file carries the parameters of its shard: it stays valid when the shard list of the harness changes
+        with tempfile.NamedTemporaryFile("w", suffix=".json", delete=False) as f:
+            json.dump({"module": modname, "tier": tier, "shards": [{"params": params}]}, f)
+            shards_path = f.name
+        env["VF_SHARDS_FILE"] = shards_path
+        idx = 0
     try:
-        p = subprocess.run([PY, "-m", "vf.replay", modname, str(idx), tier, path], env=_env(),
+        p = subprocess.run([PY, "-m", "vf.replay", modname, str(idx), tier, path], env=env,
                            cwd=str(common.VERIF), timeout=600, stdout=subprocess.PIPE, stderr=subprocess.PIPE,
                            text=True)
         last = [l for l in p.stdout.splitlines() if l.startswith("REPLAY ")]
@@ -89,6 +98,8 @@ def replay_in_fresh_process(modname: str, idx: int, tier: str, args: Any) -> Dic
         return json.loads(last[-1][len("REPLAY "):])
     finally:
         os.unlink(path)
+        if shards_path is not None:
+            os.unlink(shards_path)
 
 
 def run_property(modname: str, tier: str) -> int:
@@ -220,7 +231,9 @@ def run_property(modname: str, tier: str) -> int:
         for c in new_violations:
             path = common.write_replay(pid, {"property": pid, "module": modname, "tier": tier,
                                                "shard_index": c["shard_index"], "key": c["replayed_key"],
-                                               "msg": c["replayed_msg"], "args": c["args"]})
+                                               "msg": c["replayed_msg"], "args": c["args"],
+                                               "params": (shard_list[c["shard_index"]]["params"]
+                                                          if 0 <= c["shard_index"] < len(shard_list) else None)})
             replay_paths.append(path)
             print(f"VIOLATION property={pid} replay={path}")
             print(f"  key={c['replayed_key']} msg={c['replayed_msg'][:300]!r} args={json.dumps(c['args'])[:300]}")
@@ -319,7 +332,7 @@ def main(argv: List[str]) -> int:
     modname = "harness." + a.property
     if a.replay:
         doc = json.load(open(a.replay))
-        rr = replay_in_fresh_process(doc["module"], doc["shard_index"], doc["tier"], doc["args"])
+        rr = replay_in_fresh_process(doc["module"], doc["shard_index"], doc["tier"], doc["args"], doc.get("params"))
         print(json.dumps(rr, indent=1))
         if rr.get("violated"):
             print(f"VIOLATION property={doc['property']} replay={a.replay}")
